@@ -45,7 +45,11 @@ KEYS = {"rsa": ("serverX509Cert.pem", "serverX509Key.pem"),
 # self-signed, so that OpenSSL (which insists on verifying) can be given the
 # certificate itself as trust anchor
 CKEYS = {"rsa": ("serverX509Cert.pem", "serverX509Key.pem"),
-         "ecdsa": ("clientECCert.pem", "clientECKey.pem")}
+         "ecdsa": ("clientECCert.pem", "clientECKey.pem"),
+         "ed25519": ("serverEd25519Cert.pem", "serverEd25519Key.pem"),
+         "ed448": ("serverEd448Cert.pem", "serverEd448Key.pem"),
+         "ecdsa384": ("serverP384ECCert.pem", "serverP384ECKey.pem"),
+         "rsapss": ("serverRSAPSSCert.pem", "serverRSAPSSKey.pem")}
 OSSL_CURVE = {"secp256r1": "prime256v1", "secp384r1": "secp384r1",
               "secp521r1": "secp521r1", "x25519": "X25519", "x448": "X448",
               "brainpoolP256r1": "brainpoolP256r1",
@@ -171,6 +175,14 @@ def make_cases(ctx):
                         role, sid, ver[0], ver[1], group, feat, rep), dict(
                         role=role, sid=sid, ver=ver, key="rsa", group=group,
                         feat=feat)
+            # client authentication with every client key type
+            for ck in ("ecdsa", "ed25519", "ed448", "ecdsa384", "rsapss"):
+                sid, _ = rng.choice(mine)
+                yield "cauth-%s-%04x-%d%d-%s" % (role, sid, ver[0], ver[1],
+                                                 ck), dict(
+                    role=role, sid=sid, ver=ver, key="rsa",
+                    group="secp384r1" if ck == "ecdsa384" else "secp256r1",
+                    feat="cauth", ckey=ck)
     # overlapping version ranges, default suites
     for role in ("tl_client", "tl_server"):
         for tmin in VERS:
@@ -253,7 +265,7 @@ def run_case(ctx, cid, P):
     if feat == "alpn":
         tl_alpn = [b"h2", b"http/1.1"]
         o_alpn = ["http/1.1", "h2"]
-    ckey = "rsa" if feat == "cauth" else None
+    ckey = (P.get("ckey") or "rsa") if feat == "cauth" else None
     ts_ = suites.suite_settings(su, ver, **tkw)
     link = net.Link()
     key = {"role": role, "ver": pair.VNAME[ver], "feat": feat,
@@ -286,8 +298,8 @@ def run_case(ctx, cid, P):
             o = osslpeer.OsslEnd(link, "server", octx)
             chain = pk = None
             if ckey:
-                chain, pk = (creds.server("rsa") if ckey == "rsa" else
-                             creds.client(ckey))
+                chain, pk = (creds.client("ecdsa") if ckey == "ecdsa" else
+                             creds.server(ckey))
             if su.kx_setting in ("dh_anon", "ecdh_anon"):
                 gen = conn.handshakeClientAnonymous(
                     settings=ts_, session=sessions.get("tl"), async_=True)
